@@ -354,6 +354,22 @@ pub fn expr_to_model(e: &Expr) -> J {
     }
 }
 
+/// the model's kind name of the root node only (no conversion of the subtree)
+pub fn expr_kind(e: &Expr) -> &'static str {
+    match e {
+        Expr::Value(_) => "val", Expr::Reference(_) => "ref", Expr::Symbol(_) => "sym", Expr::Function(..) => "call", Expr::Index(..) => "index",
+        Expr::If(..) => "if", Expr::Map(_) => "map", Expr::Vec(_) => "vec", Expr::Not(_) => "not", Expr::Neg(_) => "neg", Expr::Some(_) => "some",
+        Expr::None(_) => "none", Expr::Int(_) => "int", Expr::Float(_) => "float", Expr::Dec(_) => "dec", Expr::DateTime(_) => "datetime",
+        Expr::Duration(_) => "duration", Expr::Mult(..) => "mult", Expr::Div(..) => "div", Expr::Rem(..) => "rem", Expr::Add(..) => "add",
+        Expr::Sub(..) => "sub", Expr::Equals(..) => "eq", Expr::NotEquals(..) => "neq", Expr::GreaterThan(..) => "gt",
+        Expr::GreaterThanEquals(..) => "gte", Expr::LessThan(..) => "lt", Expr::LessThanEquals(..) => "lte", Expr::And(..) => "and",
+        Expr::Or(..) => "or", Expr::BitAnd(..) => "bitand", Expr::BitOr(..) => "bitor", Expr::BitXor(..) => "bitxor", Expr::Contains(..) => "contains",
+        Expr::UpperCase(_) => "uppercase", Expr::LowerCase(_) => "lowercase", Expr::Trim(_) => "trim", Expr::Floor(_) => "floor",
+        Expr::Round(_) => "round", Expr::Fract(_) => "fract", Expr::Year(_) => "year", Expr::Month(_) => "month", Expr::Week(_) => "week",
+        Expr::Day(_) => "day", Expr::Hour(_) => "hour", Expr::Minute(_) => "minute", Expr::Second(_) => "second",
+    }
+}
+
 // ---------------------------------------------------------------- outcomes
 
 /// What the code did, as data.  A panic is data, never a tool error.
